@@ -321,7 +321,7 @@ func c01Cuts(rng *rand.Rand, variant string, b []byte, bounds []int) []int {
 
 func checkC01(r *verdict.Run) {
 	r.Rule = "sequences of well-formed commands (+ sentinel ECHO) are sent to a fresh emulator once command-by-command (reference) and again with the same bytes cut differently (pipeline, every byte, inside CRLF, inside length headers, around 8192, in writes of exactly 8192 bytes, random, mid-command; every other sequence is padded to a whole number of 8192-byte blocks); " +
-		"oracle: exactly one strictly parsed reply per command, same bytes as the reference (canonical tree for HGETALL/SMEMBERS), nothing after the sentinel; commands pipelined in several segments behind a blocking command (BLPOP/BRPOP/BLMOVE/BLMPOP, ended by a push or a timeout) must be answered like the command-by-command run; six connections reading their own 8 MiB values at the same time (one of them slowly) must each receive exactly their bytes; segments seconds apart, and connections still in use seconds after a command arrived in pieces, are served like a connection that only ever sent whole commands; hostile byte strings must round-trip in every role; error replies must stay on one line. " +
+		"oracle: exactly one strictly parsed reply per command, same bytes as the reference (canonical tree for HGETALL/SMEMBERS), nothing after the sentinel; commands pipelined in several segments behind a blocking command (BLPOP/BRPOP/BLMOVE/BLMPOP, ended by a push or a timeout) must be answered like the command-by-command run; six connections reading their own 8 MiB values at the same time (one of them slowly) must each receive exactly their bytes; segments seconds apart, and connections still in use seconds after a command arrived in pieces, are served like a connection that only ever sent whole commands; arguments of 64 KiB to 5 MiB (around every power of two and 10^6) round-trip through SET/GET/ECHO/RPUSH whole and in segments; hostile byte strings must round-trip in every role; error replies must stay on one line. " +
 		"distinct = (variant, protocol, command, reply class) + (role, string class)"
 	slowDone := make(chan struct{})
 	go func() { defer close(slowDone); c01Slow(r, time.Duration(tierPick(r, 6500, 40000))*time.Millisecond) }()
@@ -460,6 +460,7 @@ func checkC01(r *verdict.Run) {
 			}
 		}
 	})
+	c01Large(r)
 	c01Blocked(r, pool, tierPick(r, 20, 300))
 	c01Cross(r, tierPick(r, 3, 12))
 	c01Binary(r, pool)
@@ -822,7 +823,15 @@ func c01Cross(r *verdict.Run, runs int) {
 			}
 			vals[i] = v
 			if _, err := setup.Do("SET", fmt.Sprintf("big%d", i), string(v)); err != nil {
-				r.Inconclusive("cross: setup failed: " + err.Error())
+				// no reply to a well-formed command while the emulator serves others is a finding, not noise
+				can := newCanary(e.port)
+				alive, _ := can.check(5 * time.Second)
+				can.close()
+				if alive && err == wire.ErrTimeout {
+					r.Report("c01/large-argument/no-reply", fmt.Sprintf("SET big%d <%d bytes> got no reply within 30 s while another connection is served normally", i, n), map[string]any{"bytes": n})
+				} else {
+					r.Inconclusive("cross: setup failed: " + err.Error())
+				}
 				return
 			}
 		}
@@ -1016,4 +1025,87 @@ func c01Slow(r *verdict.Run, pause time.Duration) {
 		}(i, p)
 	}
 	wg.Wait()
+}
+
+// c01Large: the size of one argument as a dimension: values around the powers of two from 64 KiB to 4 MiB and around
+// 10^6, sent whole and in segments, must be answered and come back byte for byte (SET/STRLEN/GET, ECHO, RPUSH/LINDEX).
+func c01Large(r *verdict.Run) {
+	c, err := startChild(false)
+	if err != nil {
+		r.Inconclusive("cannot start child")
+		return
+	}
+	defer c.Stop()
+	e, err := startEmu(c, "")
+	if err != nil {
+		r.Inconclusive("infra: " + err.Error())
+		return
+	}
+	var sizes []int
+	for _, base := range []int{1 << 16, 1 << 19, 1000000, 1 << 20, 1 << 21, 1 << 22} {
+		sizes = append(sizes, base-1, base, base+1)
+	}
+	sizes = append(sizes, 5<<20+3)
+	if r.Tier == "thorough" {
+		sizes = append(sizes, 1<<24+1, 1<<25+7)
+	}
+	parallel(len(sizes), 4, func(i int) {
+		n := sizes[i]
+		v := make([]byte, n)
+		for j := range v {
+			v[j] = byte(j*31 + j/251)
+		}
+		cn, err := e.dial()
+		if err != nil {
+			return
+		}
+		defer cn.Close()
+		key := fmt.Sprintf("large-%d", n)
+		fail := func(what string) {
+			cls := strings.ToLower(strings.SplitN(what, " ", 2)[0])
+			can := newCanary(e.port)
+			alive, _ := can.check(5 * time.Second)
+			can.close()
+			if !alive {
+				r.Inconclusive("emulator unresponsive during the large-argument cases")
+				return
+			}
+			r.Report("c01/large-argument/"+cls, fmt.Sprintf("argument of %d bytes: %s (other connections are served normally)", n, what), map[string]any{"bytes": n})
+		}
+		r.Eval(1)
+		req := resp.Cmd("SET", key, string(v))
+		// whole, or in three segments cut inside the value
+		if i%2 == 0 {
+			cn.Send(req)
+		} else {
+			cn.SendCuts(req, []int{len(req) / 3, 2 * len(req) / 3}, 2*time.Millisecond)
+		}
+		if rv, _, err := cn.ReadValue(30 * time.Second); err != nil || rv.Text() != "OK" {
+			fail(fmt.Sprintf("SET not answered with OK (%v %s)", err, trunc(rv.String(), 80)))
+			return
+		}
+		cn.Timeout = 30 * time.Second
+		if rv, err := cn.Do("STRLEN", key); err != nil || rv.Int != int64(n) {
+			fail(fmt.Sprintf("STRLEN = %s (%v)", rv, err))
+			return
+		}
+		if rv, err := cn.Do("GET", key); err != nil || string(rv.Str) != string(v) {
+			fail(fmt.Sprintf("GET returned %d bytes that differ from what was stored (%v)", len(rv.Str), err))
+			return
+		}
+		if rv, err := cn.Do("ECHO", string(v)); err != nil || string(rv.Str) != string(v) {
+			fail(fmt.Sprintf("ECHO returned %d bytes that differ (%v)", len(rv.Str), err))
+			return
+		}
+		if rv, err := cn.Do("RPUSH", key+"-l", "small", string(v)); err != nil || rv.Int != 2 {
+			fail(fmt.Sprintf("RPUSH replied %s (%v)", trunc(rv.String(), 80), err))
+			return
+		}
+		if rv, err := cn.Do("LINDEX", key+"-l", "1"); err != nil || string(rv.Str) != string(v) {
+			fail(fmt.Sprintf("LINDEX returned %d bytes that differ (%v)", len(rv.Str), err))
+			return
+		}
+		cn.Do("DEL", key, key+"-l")
+		r.Distinct(fmt.Sprintf("large-argument/%d", n))
+	})
 }
